@@ -47,7 +47,8 @@ let () =
       let ok2 l = "ok " ^ show_list shape2 ^ " ;" ^ (if l = [] then "" else " " ^ show_list l) in
       let line row col two twoc sup sup2 =
         "lazy " ^ oka elems ^ " | row " ^ sb row ^ " | col " ^ sb col ^ " | two " ^ oka two ^ " | twoc " ^ oka twoc ^ " | sup " ^ oka sup
-        ^ " | sup2 " ^ ok2 sup2 in
+        ^ " | sup2 " ^ ok2 sup2
+        ^ " | sup3 " ^ (let d = List.length shape in if d >= 1 && d <= 3 && posb shape then oka sup else "-") in
       { model = line (eval_into v (fresh RowMajor Z0 shape)).abuf (eval_into v (fresh ColMajor Z0 shape)).abuf
                      (read (materialise RowMajor Z0 v)) (read (materialise ColMajor Z0 v))
                      (read (view_of Z0 (eval_into v sentinel))) (eval_into v sentinel2).abuf;
